@@ -21,3 +21,10 @@ dsl.share('C15', ['translated_%s' % n for n in ('Line', 'QuadraticBezier', 'Cubi
           ['scaled_%s' % n for n in ('Line', 'QuadraticBezier', 'CubicBezier')] +
           ['arc_translate_passes_the_translated_endpoint_parameters', 'arc_rotate_passes_the_rotated_endpoint_parameters',
            'arc_uniform_scale_passes_the_scaled_endpoint_parameters'])
+# C05 speaks of every path, also one an operation returned: a path that comes out of reversed /
+# cropped / a transform with cached fractions that are not those of its own segments answers
+# point(T), T2t, t2T from the wrong intervals.  The "returns a consistent path" contracts of
+# C09 / C10 are checked by C05's command too.
+dsl.share('C05', ['path_reversed_of_a_path_with_warm_caches_is_a_consistent_path',
+                  'path_cropped_returns_a_consistent_path_whatever_was_cached',
+                  'path_ops_return_a_consistent_path_whatever_was_cached'])
